@@ -73,11 +73,13 @@ def main():
                           "listed in known_findings.json and reported as KNOWN-FINDING. Renames of locals, re-formatting and added "
                           "logging, extracted/inlined locals and helpers are normalised away (DESIGN §10). Verdicts are three-valued "
                           "(DESIGN §11): rules that compare the shape of statements abstain (exit 2, undecided) on functions whose "
-                          "statement structure no longer matches the reference tree; on behaviour-preserving refactors of anchored "
-                          "functions some rules still report a finding the code does not deserve (measured in DESIGN §6: 16 of 21 "
-                          "sub-agent refactors make at least one check leave non-zero) — the main weakness of this rule base.",
+                          "statement structure no longer matches the reference tree, and obligations that meet a form the engines "
+                          "cannot evaluate are undecided. Measured on 57 behaviour-preserving refactors written by independent "
+                          "sub-agents (DESIGN §6, §13): none draws a false VIOLATION any more, 17 leave at least one check undecided "
+                          "(exit 2); every new batch first found forms that raised alarms and had to be answered by a canonical form "
+                          "or an evaluator — the main weakness of this rule base.",
             "technique": "static analysis: " + tech + "; generic lints over the anchored functions (loop-carried "
-                         "state, untrimmed level tables, task-argument mutation; DESIGN §12)",
+                         "state, untrimmed level tables, task-argument mutation, library pitfalls, unbound names; DESIGN §12)",
         })
     na = [{"property_id": p, "reason": PENDING.get(p, "check not built yet in this session (static rules designed in DESIGN §4; claimed as soon as the check exists)")}
           for p in ALL if p not in {c["property_id"] for c in checks}]
